@@ -97,10 +97,10 @@ KINDS = ["plain"] * 9 + ["sample", "truncated", "total-wrong", "ptr-inside", "pt
                          "tag-claims-less", "tag-short", "no-id3-at-pointer", "tiny", "ptr-zero-with-tag", "big-sample"]
 
 
-def gen_file(rng, op):
+def gen_file(rng, op, kind=None):
     """-> (bytes, kind, layout or None); `layout` for the well-formed kinds, dict(damaged=…, …) for damaged files
-    whose parts are still known"""
-    kind = rng.choice(KINDS)
+    whose parts are still known; `kind` forces what is otherwise drawn"""
+    kind = kind or rng.choice(KINDS)
     lay = gen_plain(rng)
     data = render(lay)
     pos = 28 + len(lay["fmt"]) + len(lay["data"])
@@ -367,9 +367,15 @@ def run(ctx):
         if rng.random() < 0.4:
             tags.add(I.COMM(encoding=3, lang="eng", desc="", text=[rng.choice(texts)]))
 
-    for i in range(n):
-        op = rng.choice(["save", "save", "save", "delete"])
-        data, kind, lay = gen_file(rng, op)
+    # every kind of the generator once per operation first (a stratified pass), then the random draws
+    forced = [(kd, fop) for kd in sorted(set(KINDS)) if kd not in ("sample", "big-sample") for fop in ("save", "delete")]
+    for i in range(len(forced) + n):
+        if i < len(forced):
+            op = forced[i][1]
+            data, kind, lay = gen_file(rng, op, kind=forced[i][0])
+        else:
+            op = rng.choice(["save", "save", "save", "delete"])
+            data, kind, lay = gen_file(rng, op)
         desc = dict(kind=kind, op=op, data=hx(data) if len(data) < 1500 else "len=%d" % len(data))
         f = io.BytesIO(data)
         offered = []
@@ -457,7 +463,7 @@ def run(ctx):
         if rng.random() < 0.3:
             kw, rw = timed(lambda: real_walk(data), 20)
             reqs.append(("dsf op=walk data=%s" % hx(data), rw if kw == "ok" else classify(rw), dict(desc, op="walk"), None))
-        if rng.random() < 0.3:
+        if rng.random() < 0.3 and len(out if k == "ok" else data) <= (1 << 22):
             which = out if k == "ok" else data
             reqs.append(("dsf op=read data=%s" % hx(which), read_answer(which), dict(desc, op="read", of="output" if k == "ok" else "input"), None))
         # ---- the statements on the real output, for the layouts that are what they seem
